@@ -280,7 +280,10 @@ def generate_e4(tier):
             raise CompilerPanic(os.path.join(VERIF, "corpus", c["file"]), c["args"])
         if "error" in d:
             raise GenError("compiler rejected corpus grammar %s: %s" % (c["name"], d))
-        for n, tag in ((c["nq"], "q"), (c["nt"], "t")):
+        # thorough bound: as deep as the reference table stays small (<= ~20k strings)
+        A_ = len(d["grammar"]["terminals"]) - 1
+        deep = {1: 12, 2: 10, 3: 8, 4: 7, 5: 6}.get(A_, 5 if A_ <= 7 else 4)
+        for n, tag in ((c["nq"], "q"), (max(c["nt"], deep), "t")):
             if tag == "t" and tier != "thorough":
                 continue
             name = "%s_%s" % (c["name"], tag)
